@@ -4,7 +4,15 @@ Per generated method: one reference run without injection, then one run per inje
 delay choice / group of 2-3 snippets whose lifetimes overlap, also inside a Hold/Pause window opened by the user). Oracle: unique injected labels exactly once within K interpreter ticks (ticks in which the run is
 paused or on hold do not count) and never twice; an injected UOD command is initialised once, runs to completion and is
 finalised; the method-line part of the run (node state transitions, Marks, UOD callbacks, final method state) equals
-the reference run. With a live edit after the injection only the injected code itself is judged. See DESIGN.md C14."""
+the reference run. With a live edit after the injection only the injected code itself is judged.
+
+About 30 % of the snippets are generated from the instruction set of the method generator (gen_snippet: Blocks nested
+1-3 levels with `End block` / `End blocks` / a Watch that ends the block, Watch and Alarm inside and outside injected
+Blocks, macro definitions and calls, UOD commands, thresholds, Waits, Info, blank lines). For them the oracle knows, per
+label, how often the snippet says it runs (sequential lines: exactly as often as the snippet says, in snippet order; Watch
+bodies: at most once; never-true bodies / uncalled macros: never; Alarm bodies: not judged). For every snippet with a
+Block the block lock must be released within the snippet's bound after it was acquired, and the Block tag must not name
+an injected Block that is not active at the end of the run. See DESIGN.md C14."""
 from __future__ import annotations
 
 import gc
@@ -20,10 +28,14 @@ TECHNIQUE = ("runtime monitoring: bounded-liveness and exactly-once monitor on i
              "comparison of the method-line trace against a reference run without the injection")
 RULE = ("seeded P-code generator (Mark, UOD, Wait, thresholds, Block, Watch, Alarm, Macro/Call macro, Pause/Hold with "
         "duration, counters, blank lines; no Stop/Restart) x scripted FT01 trajectory x snippet from {Mark, two Marks, "
-        "long UOD command, short UOD command, Wait+Mark, Block..End block, mixed} with unique labels and command names "
+        "long UOD command, short UOD command, Wait+Mark, Block..End block, mixed; 30 %: generated snippet of 1-16 lines - "
+        "Blocks nested 1-3 levels ended by End block / End blocks / Watch..End block, Watch/Alarm (true, never true, FT01 "
+        "dependent) in and outside injected Blocks, Macro + 0-2 Call macro, Other/Drive1/Mode, thresholds, Waits, Info, "
+        "blank/comment lines} with unique labels and command names "
         "the method never uses x injection at every tick of the run (quick: every 2nd) x {no edit, live edit (append a "
         "Mark at the end of the method) 0-6 ticks later, 2-3 snippets in one run (unique labels, pairwise different "
-        "command names Other/Drive1/Mode, at most one Block) injected 0-4 ticks apart so that their lifetimes overlap, "
+        "command names Other/Drive1/Mode, at most one fixed Block snippet, 35 % generated snippets incl. nested Blocks) "
+        "injected 0-4 ticks apart so that their lifetimes overlap, "
         "a quarter of them inside a user Hold/Pause window that is released 1-5 ticks after the last injection}. distinct = (method shape, snippet kind, phase of the "
         "injection relative to the run, edit delay); non-trivial = the method had started lines and pending lines at "
         "the injection, or the engine was paused/on hold at the injection")
@@ -33,7 +45,20 @@ ASSUMPTIONS = [
     "injected UOD commands use names the method never uses (Other, Mode), because same-name / overlapping commands "
     "cancel each other by design (C11)",
     "an injected Block competes for the block lock with method blocks by design: the bound is not judged for Block "
-    "snippets while a method block holds the lock, and method-line timing is then not compared",
+    "snippets while a method block holds the lock, and method-line timing is then not compared; the untimed method-line "
+    "comparison is decided under contention only if a stall cannot change which lines run (constant FT01, no Simulate "
+    "in the method, every method Block of the reference run ends)",
+    "block lock: once an injected Block holds the (exclusive) lock nothing competes with its snippet, so it must "
+    "release the lock within the snippet's bound K counted from the acquisition, contention before or not; read from "
+    "lock_acquired transitions of the injected Block objects, not from the interpreter's list of locked blocks",
+    "generated snippets avoid what is a design choice or a recorded finding of C02/C03/C04/C05/C41: End block(s) that "
+    "could end a block the snippet did not open, lines after `End blocks` in the blocks it ends, Blocks and macro "
+    "calls in Watch/Alarm bodies, Watch/Alarm in Alarm or macro bodies, UOD commands off the sequential path, macro "
+    "definitions inside Blocks, calls of method macros, thresholds > 0 outside the snippet's own Blocks (their clock "
+    "is restarted by any Watch/Alarm/Block of the method or of another snippet)",
+    "bound of a generated snippet: 4 + 3 per line on the sequential path (macro bodies per call) + Wait ticks + "
+    "threshold ticks + 1 + 8 per Block (acquire, end) + 4 per Watch that ends a block; in a group, a Block snippet's "
+    "bound also includes the bounds of Block snippets injected after it (they may take the lock first)",
     "'does not change which method lines start/complete' is decided on node state transitions, Marks, UOD callbacks "
     "and final method state of method lines; if these differ only in timing the untimed comparison decides, restricted "
     "to lines outside Alarm/macro bodies",
@@ -47,7 +72,19 @@ REQUIRED = {"injections_no_edit": 2000, "label_bound_checks": 2000, "uod_finaliz
             "differential_exact_equal": 1500, "injections_with_edit": 800, "interp_ticks_counted": 20000,
             "injections_while_paused_or_held": 20, "multi_injection_runs": 600, "multi_runs_with_overlapping_lifetimes": 500,
             "multi_label_bound_checks": 1200, "multi_uod_finalize_checks": 500, "multi_differential_exact_equal": 500,
-            "multi_later_snippet_injected_while_paused_or_held": 80, "multi_runs_in_user_hold_or_pause_window": 80}
+            "multi_later_snippet_injected_while_paused_or_held": 80, "multi_runs_in_user_hold_or_pause_window": 80,
+            # generated snippets (nested Blocks etc.): reached, judged, at every kind of position
+            "gen_snippets_injected": 900, "gen_snippets_with_nested_blocks": 550, "gen_snippets_with_3_block_levels": 100,
+            "gen_label_bound_and_order_checks": 330, "gen_nested_block_label_bound_checks": 200,
+            "injected_block_lock_hold_checks": 750, "injected_nested_block_lock_hold_checks": 600,
+            "injected_block_tag_checks": 380, "multi_gen_snippets_injected": 400,
+            "multi_gen_label_bound_and_order_checks": 350, "multi_gen_nested_block_label_bound_checks": 200,
+            "multi_injected_block_lock_hold_checks": 650,
+            "gen_block_snippet_injected_while_method_block_active": 60, "gen_block_snippet_injected_before_a_method_block": 70,
+            "gen_block_snippet_injected_after_the_method_blocks": 20, "gen_block_snippet_injected_while_paused_or_held": 20,
+            "gen_feat_watch_in_block": 100, "gen_feat_alarm_in_block": 100, "gen_feat_callmacro": 80,
+            "gen_feat_end_blocks_chain": 170, "gen_feat_end_block_depth3": 90, "gen_feat_block_ended_by_watch": 150,
+            "gen_feat_thr": 400, "gen_feat_uod": 500, "gen_feat_wait": 390}
 
 ALLOW = ("mark", "uod", "wait", "block", "watch", "alarm", "macro", "thr", "blank", "pausehold", "counter", "info", "sim")
 INJ_CMDS = ("Other", "Mode", "Drive1")   # rig commands the generated methods never use
@@ -102,13 +139,17 @@ def snippet(rnd: random.Random, tag: str, kind: str | None = None, long_cmd: str
 # not this statement's business: `End block(s)` that could end a block the snippet did not open; lines after an
 # `End blocks` in the blocks it ends (skipped by design); a Block in a Watch/Alarm/macro body (competes with the
 # snippet's own main path for 'innermost block', C05 / C41 findings); Watch/Alarm inside Alarm or macro bodies, macro
-# calls from interrupt bodies, UOD commands off the sequential path (C02/C04/C10 findings); calls of method macros.
+# calls from interrupt bodies, UOD commands off the sequential path (C02/C04/C10 findings); calls of method macros;
+# macro definitions inside a Block (the body counts as 'in an ended block' once that Block has ended - C41's business).
 G_TRUE = "Run Counter >= 0"
 G_FALSE = "X = 7"                                   # the method generator simulates X in 0..5 only
 G_VAR = ("FT01 > 3 L/h", "FT01 > 1 L/h", "FT01 >= 5 L/h", "X = 2")
 G_THR = ("0.2", "0.5", "1", "0", "1.5")
 G_WAIT = ("0.1", "0.2", "0.3", "0", "0.5")
-GEN_KMAX = 84                                       # longest bound of one generated snippet (or of a group of 2-3)
+GEN_KMAX = 84                                       # longest bound of one generated snippet
+GEN_KMAX_MULTI = 40                                 # ... of a generated snippet in a group of 2-3
+GEN_SHARE = 0.3                                     # share of generated snippets among the single injections
+GEN_SHARE_MULTI = 0.35                              # ... among the snippets of a group
 
 
 class _SnipGen:
@@ -137,7 +178,7 @@ class _SnipGen:
         self.lines.append(" " * ind + txt)
 
     # -- leaves; `to` = list that receives the labels, cost = whether the line lies on the sequential path
-    def leaf(self, ind: int, to: list[str], kinds: tuple[str, ...]) -> int:
+    def leaf(self, ind: int, to: list[str], kinds: tuple[str, ...], thr_values=G_THR) -> int:
         r = self.r
         k = r.choice(kinds)
         if k == "uod_long" and not self.longs:
@@ -150,7 +191,7 @@ class _SnipGen:
             to.append(lab)
             self.emit(ind, f"Mark: {lab}")
         elif k == "thr":
-            v = r.choice(G_THR)
+            v = r.choice(thr_values)
             lab = self.lab()
             to.append(lab)
             self.emit(ind, f"{v} Mark: {lab}")
@@ -187,15 +228,21 @@ class _SnipGen:
         if depth < self.max_depth:
             kinds += ["block", "block", "block"] if depth else ["block", "block"]
             kinds += ["watch", "alarm"]
-        if depth <= 1 and len(self.macros) < 2:
-            kinds.append("macro")
+        if depth == 0 and len(self.macros) < 2:
+            kinds.append("macro")       # at the root only: a body defined inside a Block is skipped after that Block ended
+        if self.macros:
+            kinds += ["callmacro", "callmacro"]
         k = r.choice(kinds)
         if k == "blank" and last:
             k = "mark"
         if k == "callmacro" and not self.macros:
             k = "mark"
         if k in ("mark", "thr", "wait", "uod_long", "uod_short", "info"):
-            self.cost += self.leaf(ind, self.seq, (k,))
+            # a threshold line reads the clock of the innermost scope that was activated last, anywhere in the run
+            # (Block Time inside a Block, else Scope Time): inside the snippet's own Block (exclusive lock) that is the
+            # Block's clock and the wait is bounded by the threshold; at the root any Watch/Alarm/Block of the method
+            # or of another snippet may restart the clock, so only `0 ...` thresholds are generated there
+            self.cost += self.leaf(ind, self.seq, (k,), thr_values=G_THR if depth >= 1 else ("0",))
         elif k == "blank":
             self.emit(ind, r.choice(["", "# c"]))
             self.cost += 3
@@ -217,7 +264,7 @@ class _SnipGen:
             labs: list[str] = []
             c = 0
             for _ in range(r.randint(1, 3)):
-                c += self.leaf(ind + 4, labs, ("mark", "mark", "thr", "wait", "info"))
+                c += self.leaf(ind + 4, labs, ("mark", "mark", "thr", "wait", "info"), thr_values=("0",))
             self.macros[name] = (labs, c)
             self.cost += 3
             self.feat.add("macro")
@@ -263,6 +310,13 @@ class _SnipGen:
     def program(self, n: int):
         for i in range(n):
             self.stmt(0, 0, last=(i == n - 1), may_chain=False)
+        if self.macros and "callmacro" not in self.feat and self.r.random() < 0.7:
+            name = self.r.choice(sorted(self.macros))
+            self.emit(0, f"Call macro: {name}")
+            labs, c = self.macros[name]
+            self.seq.extend(labs)
+            self.cost += 4 + c
+            self.feat.add("callmacro")
 
 
 def gen_snippet(rnd: random.Random, tag: str, longs=("Drive1", "Other"), shorts=("Mode",), kmax: int = GEN_KMAX,
@@ -273,7 +327,9 @@ def gen_snippet(rnd: random.Random, tag: str, longs=("Drive1", "Other"), shorts=
     interpreter ticks: 3 per line (as for the fixed kinds), Wait and threshold durations, 4 per Block start / end."""
     if want_nested is None:
         want_nested = rnd.random() < 0.6
-    for _ in range(200):
+    for attempt in range(400):
+        if attempt == 200:
+            want_nested = False
         g = _SnipGen(rnd, tag, list(longs), list(shorts), max_depth=rnd.choice([2, 3, 3]))
         g.program(rnd.randint(1, 4))
         K = 4 + g.cost
@@ -300,6 +356,13 @@ def multi_snippets(rnd: random.Random, tag: str) -> tuple[list[dict], list[int]]
     rnd.shuffle(longs)
     sns, have_block = [], False
     for i in range(n):
+        if rnd.random() < GEN_SHARE_MULTI:
+            # generated snippet (nested Blocks, Watch/Alarm, macros, thresholds ...) with the command names still unused
+            sn = gen_snippet(rnd, f"{tag}{'xyz'[i]}", longs=tuple(longs), shorts=tuple(shorts), kmax=GEN_KMAX_MULTI)
+            longs = [c for c in longs if c not in sn["cmds"]]
+            shorts = [c for c in shorts if c not in sn["cmds"]]
+            sns.append(sn)
+            continue
         kind = rnd.choice(SNIPPET_KINDS)
         if kind == "block" and have_block:
             kind = "mark2"
@@ -334,7 +397,9 @@ def run_once(text: str, traj, ticks: int, inject=None, edit=None, user=None):
     rig = R.EngineRig(text, long_n=LONG_N)
     L.reset_interp_counter()
     rec = {"marks_at": [], "iticks_at": [], "state_at": [], "locked_at": [], "inject_itick": None, "edit_result": None,
-           "inject_error": None, "inject_state": None, "edit_tick": None, "injections": [], "user": []}
+           "inject_error": None, "inject_state": None, "edit_tick": None, "injections": [], "user": [],
+           "block_tag_at": []}
+    keep: list = []      # injected nodes stay referenced until the end of the run (their python ids key the trace)
     injs = [] if inject is None else [inject] if isinstance(inject[0], int) else list(inject)
     try:
         rig.start()
@@ -352,12 +417,20 @@ def run_once(text: str, traj, ticks: int, inject=None, edit=None, user=None):
                     rec["inject_itick"] = L.ITICKS[0]
                     rec["inject_ms"] = L.state_sets(rig.e.method_manager.get_method_state())
                     rec["inject_nlines"] = len(L.method_lines(rig))
+                known = {id(i.node) for i in rig.e.interpreter.interrupts}
                 try:
                     rig.e.inject_code(code)
                 except Exception as ex:
                     one["error"] = f"{type(ex).__name__}: {ex}"[:300]
                     if n_inj == 0:
                         rec["inject_error"] = one["error"]
+                # the Block nodes of this snippet (python id -> name), read from the InjectedNode the call registered
+                one["blocks"] = {}
+                for intr in rig.e.interpreter.interrupts:
+                    if id(intr.node) not in known and type(intr.node).__name__ == "InjectedNode":
+                        keep.append(intr.node)
+                        one["blocks"] = {id(b): b.name for b in intr.node.get_child_nodes(recursive=True)
+                                         if type(b).__name__ == "BlockNode"}
                 rec["injections"].append(one)
             if edit is not None and rig.k == edit[0]:
                 rec["edit_tick"] = rig.k
@@ -381,6 +454,7 @@ def run_once(text: str, traj, ticks: int, inject=None, edit=None, user=None):
             rec["iticks_at"].append(L.ITICKS[0])
             rec["state_at"].append(rig.state)
             rec["locked_at"].append(len(rig.program().get_locked_blocks()))
+            rec["block_tag_at"].append(rig.tag("Block"))
             if rig.tick_exc:
                 break
         ms = rig.e.method_manager.get_method_state()
@@ -396,6 +470,8 @@ def run_once(text: str, traj, ticks: int, inject=None, edit=None, user=None):
         rec["repeatable_labels"] = {n.name for n in prog.get_all_nodes() if L.in_repeatable(n) and type(n).__name__ == "MarkNode"}
         rec["method_ids"] = {n.id for n in prog.get_all_nodes()}
         rec["method_has_block"] = any(type(n).__name__ == "BlockNode" for n in prog.get_all_nodes())
+        rec["method_blocks_open"] = sum(1 for n in prog.get_all_nodes() if type(n).__name__ == "BlockNode"
+                                        and n.started and not n.completed)
         rec["block_tag"] = rig.tag("Block")
         return rec
     finally:
@@ -488,6 +564,17 @@ def untimed_difference(ref, ref_part, got) -> str | None:
     return next((n for n, x, y in zip(names, a, b) if x != y), None)
 
 
+def stall_insensitive(text: str, traj, ref) -> bool:
+    """An injected Block and a method Block compete for the block lock by design, so the method's main path may stand
+    still for up to the snippet's bound. That may legitimately change WHICH method lines run when a condition of the
+    method is true only for a while (scripted FT01 pulse / step / ramp, Simulate ... Simulate off) or when a method Block
+    never ends (whoever gets the lock first keeps it). Without those three, a stall only delays: the untimed comparison
+    of the method-line part is then decided even under lock contention."""
+    n = len(ref["marks_at"]) + 2
+    return len(set(traj[:n])) == 1 and "Simulate" not in text and ref["method_blocks_open"] == 0 and \
+        (not ref["locked_at"] or ref["locked_at"][-1] == 0)
+
+
 def injected_ids_shared(rec) -> bool:
     """Causal shape of 'injected snippets are numbered independently': two different node objects with the same
     (negative) injected node id changed state in one run."""
@@ -496,6 +583,115 @@ def injected_ids_shared(rec) -> bool:
         if _neg(e[2]) and e[3] not in ("InjectedNode", "NullNode"):
             objs.setdefault(e[2], set()).add((e[6], e[3]))
     return any(len(v) > 1 for v in objs.values())
+
+
+def has_block(sn) -> bool:
+    return sn["kind"] == "block" or bool(sn.get("has_block"))
+
+
+def want_of(sn) -> dict:
+    """label -> number of executions the statement demands (lines on the sequential path of the snippet)"""
+    return sn.get("want") or {lab: 1 for lab in sn["labels"]}
+
+
+def labels_missing(sn, marks) -> list:
+    return [lab for lab, c in want_of(sn).items() if marks.count(lab) != c]
+
+
+def labels_excess(sn, marks) -> list:
+    """labels appended more often than the snippet says: a sequential line more than once per execution, a Watch body
+    line more than once, a line in a body whose condition is never true (or of a macro that is never called) at all"""
+    return ([lab for lab, c in want_of(sn).items() if marks.count(lab) > c]
+            + [lab for lab in sn.get("atmost", ()) if marks.count(lab) > 1]
+            + [lab for lab in sn.get("never", ()) if marks.count(lab) > 0])
+
+
+def order_problem(sn, marks) -> str | None:
+    """The sequential lines of a snippet execute in snippet order: at any moment the labels appended so far are a
+    prefix of the snippet's label sequence (macro calls expanded)."""
+    w = want_of(sn)
+    seq = sn.get("seq") or sn["labels"]
+    got = [m for m in marks if m in w]
+    if got != seq[:len(got)] and not labels_excess(sn, marks):
+        return f"labels in the order {got}, the snippet says {seq}"
+    return None
+
+
+def lock_hold_problems(rec, n_inj: int, K: int) -> tuple[int, list[str]]:
+    """Block lock clause: an injected Block that has acquired the block lock runs without competitor (the lock is
+    exclusive), so it must have released the lock within the snippet's bound K, counted in interpreter ticks from the
+    acquisition - whether or not the snippet had to wait for a method block before. Read from the node-state trace
+    (lock_acquired transitions of this snippet's Block objects), not from the interpreter's own list of locked blocks.
+    Returns (number of decided lock holds, problems)."""
+    blocks = rec["injections"][n_inj].get("blocks") or {}
+    its = rec["iticks_at"]
+    if not blocks or not its:
+        return 0, []
+
+    def it(tick):
+        return its[min(max(tick - 2, 0), len(its) - 1)]
+    ev: dict = {}
+    for e in rec["trace"]:
+        if e[1] == "lock_acquired" and e[6] in blocks:
+            ev.setdefault(e[6], []).append((e[0], e[5]))
+    checked, probs = 0, []
+    for pyid, lst in ev.items():
+        acq = None
+        for tick, new in lst:
+            if new is True:
+                acq = tick
+            elif acq is not None:
+                checked += 1
+                if it(tick) - it(acq) > K:
+                    probs.append(f"Block {blocks[pyid]} held the block lock for {it(tick) - it(acq)} interpreter ticks "
+                                 f"(ticks {acq}..{tick}), bound {K}")
+                acq = None
+        if acq is not None and its[-1] - it(acq) > K:
+            checked += 1
+            probs.append(f"Block {blocks[pyid]} acquired the block lock at tick {acq} and still holds it "
+                         f"{its[-1] - it(acq)} interpreter ticks later at the end of the run (bound {K})")
+    return checked, probs
+
+
+def stale_block_tag(rec, n_inj: int) -> str | None:
+    """Block tag clause: at the end of the run the Block tag does not name a Block of the snippet that is not active
+    (active = lock acquired and not ended, read from the trace)."""
+    blocks = rec["injections"][n_inj].get("blocks") or {}
+    tag = rec["block_tag"]
+    if not tag or tag not in blocks.values():
+        return None
+    last: dict = {}
+    for e in rec["trace"]:
+        if e[6] in blocks and e[1] in ("lock_acquired", "block_ended"):
+            last[(e[6], e[1])] = e[5]
+    for pyid, name in blocks.items():
+        if name == tag and last.get((pyid, "lock_acquired")) is True and last.get((pyid, "block_ended")) is not True:
+            return None
+    return f"Block tag is {tag!r} at the end of the run although no injected Block of that name is active"
+
+
+def count_gen_coverage(res: Result, sn, rec, t: int, state: str, prefix: str = "gen"):
+    """Which classes of generated snippets / injection positions were reached (REQUIRED counters)."""
+    res.count(f"{prefix}_snippets_injected")
+    if sn["depth"] >= 2:
+        res.count(f"{prefix}_snippets_with_nested_blocks")
+    if sn["depth"] >= 3:
+        res.count(f"{prefix}_snippets_with_3_block_levels")
+    for f in sn["feat"]:
+        res.count(f"{prefix}_feat_{f}")
+    if not sn["has_block"]:
+        return
+    acq = [e[0] for e in rec["trace"] if e[3] == "BlockNode" and not _neg(e[2]) and e[1] == "lock_acquired" and e[5] is True]
+    if state in ("Paused", "Holding"):
+        res.count(f"{prefix}_block_snippet_injected_while_paused_or_held")
+    if t >= 2 and t - 2 < len(rec["locked_at"]) and rec["locked_at"][t - 2] > 0:
+        res.count(f"{prefix}_block_snippet_injected_while_method_block_active")
+    elif any(a > t for a in acq):
+        res.count(f"{prefix}_block_snippet_injected_before_a_method_block")
+    elif acq:
+        res.count(f"{prefix}_block_snippet_injected_after_the_method_blocks")
+    else:
+        res.count(f"{prefix}_block_snippet_injected_into_method_without_blocks")
 
 
 def check_multi(case, pt, ref, ref_part, method_ids, H, res: Result, viol):
@@ -549,29 +745,39 @@ def check_multi(case, pt, ref, ref_part, method_ids, H, res: Result, viol):
         res.count("multi_later_snippet_injected_while_paused_or_held")
     shared = injected_ids_shared(rec)
     final_marks = rec["marks_at"][-1]
-    have_block = any(sn["kind"] == "block" for sn in sns)
+    have_block = any(has_block(sn) for sn in sns)
     any_contention = False
     overlapped = False
     Kc = Kcmd_extra = 0
     for i, (t, sn) in enumerate(zip(ts, sns)):
         it0 = inj[i]["itick"]
         Kc += sn["K"]
+        # a Block of a snippet injected later may take the block lock first: its bound is added for Block snippets
+        Kb = Kc + (sum(sj["K"] for sj in sns[i + 1:] if has_block(sj)) if has_block(sn) else 0)
+        gen = sn["kind"] == "gen"
+        if gen:
+            count_gen_coverage(res, sn, rec, t, inj[i]["state"], prefix="multi_gen")
         Kcmd_extra += max([CMD_EXTRA[c] for c in sn["cmds"]] or [0])
         # was an earlier snippet still unfinished when this one arrived? (marks_at index 0 = tick 2)
         if i > 0:
             before = rec["marks_at"][t - 2] if t >= 2 else ()
             for tj, sj in list(zip(ts, sns))[:i]:
-                if any(before.count(lab) != 1 for lab in sj["labels"]) or any(
+                if labels_missing(sj, before) or any(
                         not any(c[2] == name and c[1] == "fin" and tj < c[0] <= t for c in rec["cmdlog"]) for name in sj["cmds"]):
                     overlapped = True
         who = f"snippet #{i + 1} ({sn['kind']}, injected at tick {t}, state {inj[i]['state']})"
-        twice = [lab for lab in sn["labels"] if final_marks.count(lab) >= 2]
+        twice = labels_excess(sn, final_marks)
         if twice:
             viol.append(("C14.injected_snippets_share_node_ids" if shared else "C14.injected_label_twice",
-                         f"{desc}: {who}: label(s) {twice} appended more than once: {final_marks}", sub))
-        deadline_idx = next((k for k, v in enumerate(rec["iticks_at"]) if v - it0 >= Kc), None)
-        cmd_deadline_idx = next((k for k, v in enumerate(rec["iticks_at"]) if v - it0 >= Kc + Kcmd_extra), None)
-        contention = sn["kind"] == "block" and any(
+                         f"{desc}: {who}: label(s) {twice} appended more often than the snippet says: {final_marks}"
+                         + (f"; snippet {sn['code']!r}" if gen else ""), sub))
+        ooo = order_problem(sn, final_marks)
+        if ooo:
+            viol.append(("C14.injected_snippets_share_node_ids" if shared else "C14.injected_lines_out_of_order",
+                         f"{desc}: {who}: {ooo}; snippet {sn['code']!r}", sub))
+        deadline_idx = next((k for k, v in enumerate(rec["iticks_at"]) if v - it0 >= Kb), None)
+        cmd_deadline_idx = next((k for k, v in enumerate(rec["iticks_at"]) if v - it0 >= Kb + Kcmd_extra), None)
+        contention = has_block(sn) and any(
             rec["locked_at"][k] > 0 for k in range(max(0, t - 2), min(len(rec["locked_at"]), (deadline_idx or 0) + 1)))
         any_contention = any_contention or contention
         if deadline_idx is None:
@@ -581,11 +787,28 @@ def check_multi(case, pt, ref, ref_part, method_ids, H, res: Result, viol):
         else:
             res.count("multi_label_bound_checks")
             at = rec["marks_at"][deadline_idx]
-            missing = [lab for lab in sn["labels"] if at.count(lab) != 1]
+            missing = labels_missing(sn, at)
             if missing:
                 viol.append(("C14.injected_snippets_share_node_ids" if shared else "C14.injected_label_not_once_within_bound",
-                             f"{desc}: {who}: label(s) {missing} not exactly once after {Kc} interpreter ticks; marks then: "
-                             f"{at}", sub))
+                             f"{desc}: {who}: label(s) {missing} not {'as often as the snippet says' if gen else 'exactly once'}"
+                             f" after {Kb} interpreter ticks; marks then: {at}"
+                             + (f"; snippet {sn['code']!r}" if gen else ""), sub))
+            if gen:
+                res.count("multi_gen_label_bound_and_order_checks")
+                if sn["depth"] >= 2:
+                    res.count("multi_gen_nested_block_label_bound_checks")
+        if has_block(sn):
+            nchk, probs = lock_hold_problems(rec, i, sn["K"])
+            res.count("multi_injected_block_lock_hold_checks", nchk)
+            if sn.get("depth", 1) >= 2:
+                res.count("multi_injected_nested_block_lock_hold_checks", nchk)
+            for pr in probs[:1]:
+                viol.append(("C14.injected_snippets_share_node_ids" if shared else "C14.injected_block_keeps_block_lock",
+                             f"{desc}: {who}: {pr}; snippet {sn['code']!r}", sub))
+            stale = stale_block_tag(rec, i)
+            if stale:
+                viol.append(("C14.injected_snippets_share_node_ids" if shared else "C14.block_tag_names_inactive_injected_block",
+                             f"{desc}: {who}: {stale}; snippet {sn['code']!r}", sub))
         if sn["cmds"] and cmd_deadline_idx is not None and not contention:
             res.count("multi_uod_finalize_checks")
             upto = cmd_deadline_idx + 2
@@ -620,9 +843,12 @@ def check_multi(case, pt, ref, ref_part, method_ids, H, res: Result, viol):
     else:
         res.count("differential_timing_differs")
         res.count("differential_timing_differs_multi")
-        if any_contention or (have_block and ref["method_has_block"]):
+        amb = any_contention or (have_block and ref["method_has_block"])
+        if amb and not stall_insensitive(text, traj, ref):
             res.count("differential_ambiguous_block_lock_contention")
         else:
+            if amb:
+                res.count("differential_judged_under_block_lock_contention")
             what = untimed_difference(ref, ref_part, got)
             if what:
                 viol.append(("C14.injected_snippets_share_node_ids" if shared else "C14.method_lines_changed_by_injection",
@@ -635,7 +861,8 @@ def check_multi(case, pt, ref, ref_part, method_ids, H, res: Result, viol):
     progress = len((st | ex | fl) - {"root"})
     nontrivial = (0 < progress < rec["inject_nlines"]) or any(paused)
     phase = "early" if progress <= 1 else "late" if progress >= rec["inject_nlines"] - 1 else "mid"
-    key = (shape_hash(text), "multi", tuple(sn["kind"] for sn in sns), tuple(m["gaps"]), phase, tuple(paused),
+    key = (shape_hash(text), "multi", tuple(sn["kind"] if sn["kind"] != "gen" else ("gen", tuple(sn["feat"])) for sn in sns),
+           tuple(m["gaps"]), phase, tuple(paused),
            hold["cmd"] if user else None) if nontrivial else None
     res.count("interp_ticks_counted", rec["iticks_at"][-1] if rec["iticks_at"] else 0)
     res.case(key, sample={"method": text, "inject_ticks": ts, "snippets": [sn["code"] for sn in sns], "user": user,
@@ -654,10 +881,26 @@ def check_case(case: dict, res: Result):
         res.case(None, sample={"method": text, "skipped": "reference run ends in error", "errors": ref0["errors"][:1]})
         return
     q = min(quiescence(ref0), 110)
-    H = q + KMAX + 12
-    ref = run_once(text, traj, H)
+    H0 = q + KMAX + 12
+    ref = run_once(text, traj, H0)
     method_ids = ref["method_ids"]
-    ref_part = method_part(ref, method_ids)
+    refs = {H0: (ref, method_part(ref, method_ids))}
+
+    def horizon(sns):
+        """Generated snippets need a longer run: their bounds, their commands, and 30 ticks for method lines that were
+        held up meanwhile (an injected Block restarts Block Time, the clock of the method's thresholds). Rounded up to
+        a multiple of 16 so that a few reference runs per method serve all points."""
+        if not any(sn["kind"] == "gen" for sn in sns):
+            return H0
+        need = sum(sn["K"] for sn in sns) + sum(max([CMD_EXTRA[c] for c in sn["cmds"]] or [0]) for sn in sns)
+        h = q + max(KMAX, need) + 30
+        return max(H0, -(-h // 16) * 16)
+
+    def reference(h):
+        if h not in refs:
+            r = run_once(text, traj, h)
+            refs[h] = (r, method_part(r, method_ids))
+        return refs[h]
     lines = [(f"L{i}", c) for i, c in enumerate(text.split("\n")[:-1])]
     only = case.get("only")
     points = [only] if only else []
@@ -666,6 +909,8 @@ def check_case(case: dict, res: Result):
         n = 0
         while t <= q + 3:
             sn = snippet(rnd, str(n))
+            if rnd.random() < GEN_SHARE:
+                sn = gen_snippet(rnd, str(n))
             d = rnd.choice([None, None, None, None, None, "multi", "multi", 0, 1, 2, 3, 4, 6])
             if d == "multi":
                 # 2-3 snippets whose lifetimes overlap; sometimes inside a Hold / Pause window opened by the user
@@ -680,9 +925,14 @@ def check_case(case: dict, res: Result):
             n += 1
     for pt in points:
         if "multi" in pt:
+            H = horizon(pt["multi"]["sns"])
+            ref, ref_part = reference(H)
             check_multi(case, pt, ref, ref_part, method_ids, H, res, viol)
             continue
         t, sn, d = pt["t"], pt["sn"], pt["edit_delay"]
+        H = horizon([sn])
+        ref, ref_part = reference(H)
+        gen = sn["kind"] == "gen"
         sub = dict(case, only=pt)
         edit = None
         if d is not None:
@@ -713,20 +963,27 @@ def check_case(case: dict, res: Result):
         it0 = rec["inject_itick"]
         # first tick index (0-based in marks_at) at which K interpreter ticks have elapsed since the injection
         deadline_idx = next((i for i, v in enumerate(rec["iticks_at"]) if v - it0 >= sn["K"]), None)
-        cmd_deadline_idx = next((i for i, v in enumerate(rec["iticks_at"]) if v - it0 >= sn["K"] + LONG_N + 2), None)
-        counts_final = {lab: final_marks.count(lab) for lab in sn["labels"]}
-        twice = [lab for lab, c in counts_final.items() if c >= 2]
+        cmd_extra = max([CMD_EXTRA[c] for c in sn["cmds"]] or [LONG_N + 2])
+        cmd_deadline_idx = next((i for i, v in enumerate(rec["iticks_at"]) if v - it0 >= sn["K"] + cmd_extra), None)
+        twice = labels_excess(sn, final_marks)
         if twice:
             viol.append(("C14.injected_label_twice", f"injected at tick {t} ({sn['kind']}): label(s) {twice} appended "
-                         f"more than once: {final_marks}", sub))
-        lock_contention = sn["kind"] == "block" and any(
+                         f"more often than the snippet says: {final_marks}"
+                         + (f"; snippet {sn['code']!r}" if gen else ""), sub))
+        ooo = order_problem(sn, final_marks)
+        if ooo:
+            viol.append(("C14.injected_lines_out_of_order", f"injected at tick {t} ({sn['kind']}): {ooo}; snippet "
+                         f"{sn['code']!r}", sub))
+        if gen:
+            count_gen_coverage(res, sn, rec, t, rec["inject_state"])
+        lock_contention = has_block(sn) and any(
             rec["locked_at"][i] > 0 for i in range(max(0, t - 2), min(len(rec["locked_at"]), (deadline_idx or 0) + 1)))
         missing = []
         if deadline_idx is None:
             res.count("bound_not_reached_in_horizon")       # too few interpreter ticks (long pause); not judged
         else:
             at = rec["marks_at"][deadline_idx]
-            missing = [lab for lab in sn["labels"] if at.count(lab) != 1]
+            missing = labels_missing(sn, at)
         cmd_problems = []
         if sn["cmds"] and cmd_deadline_idx is not None:
             upto = cmd_deadline_idx + 2      # rig tick number of that index (index 0 = tick 2, tick 1 is rig.start())
@@ -736,7 +993,7 @@ def check_case(case: dict, res: Result):
                 fins = [c for c in log if c[1] == "fin"]
                 execs = [c[4] for c in log if c[1] == "exec"]
                 # get_iteration_count() is 0-based at the time of the exec callback; long_exec completes at >= LONG_N
-                want = list(range(0, LONG_N + 1)) if name == "Other" else [0]
+                want = CMD_WANT[name]
                 if len(inits) != 1:
                     cmd_problems.append(f"{name}: {len(inits)} init")
                 elif len(fins) != 1 or fins[0][0] > upto:
@@ -764,8 +1021,27 @@ def check_case(case: dict, res: Result):
                     elif missing:
                         viol.append(("C14.injected_label_not_once_within_bound",
                                      f"injected at tick {t} ({sn['kind']}, state {rec['inject_state']}): label(s) {missing} "
-                                     f"not exactly once after K={sn['K']} interpreter ticks; marks then: "
-                                     f"{rec['marks_at'][deadline_idx]}", sub))
+                                     f"not {'as often as the snippet says' if gen else 'exactly once'} after K={sn['K']} "
+                                     f"interpreter ticks; marks then: {rec['marks_at'][deadline_idx]}"
+                                     + (f"; snippet {sn['code']!r}" if gen else ""), sub))
+                    if gen:
+                        res.count("gen_label_bound_and_order_checks")
+                        if sn["depth"] >= 2:
+                            res.count("gen_nested_block_label_bound_checks")
+            if has_block(sn):
+                # block lock / Block tag released when the snippet's blocks have ended (also after a wait for a method block)
+                nchk, probs = lock_hold_problems(rec, 0, sn["K"])
+                res.count("injected_block_lock_hold_checks", nchk)
+                if sn.get("depth", 1) >= 2:
+                    res.count("injected_nested_block_lock_hold_checks", nchk)
+                for pr in probs[:1]:
+                    viol.append(("C14.injected_block_keeps_block_lock", f"injected at tick {t} ({sn['kind']}): {pr}; "
+                                 f"snippet {sn['code']!r}", sub))
+                stale = stale_block_tag(rec, 0)
+                res.count("injected_block_tag_checks")
+                if stale:
+                    viol.append(("C14.block_tag_names_inactive_injected_block", f"injected at tick {t} ({sn['kind']}): "
+                                 f"{stale}; snippet {sn['code']!r}", sub))
             if sn["cmds"] and cmd_deadline_idx is not None and not lock_contention:
                 res.count("uod_finalize_checks")
                 if cmd_problems:
@@ -783,9 +1059,12 @@ def check_case(case: dict, res: Result):
             else:
                 res.count("differential_timing_differs")
                 res.count("differential_timing_differs_kind_" + sn["kind"])
-                if lock_contention or (sn["kind"] == "block" and ref["method_has_block"]):
+                amb = lock_contention or (has_block(sn) and ref["method_has_block"])
+                if amb and not stall_insensitive(text, traj, ref):
                     res.count("differential_ambiguous_block_lock_contention")
                 else:
+                    if amb:
+                        res.count("differential_judged_under_block_lock_contention")
                     what = untimed_difference(ref, ref_part, got)
                     if what:
                         stuck = sn["kind"] == "block" and injected_block_never_ended(rec) and rec["block_tag"] == "jblk"
@@ -810,7 +1089,7 @@ def check_case(case: dict, res: Result):
             elif merged:
                 # was the injected code already complete when the edit arrived? then the edit cannot be the cause
                 ei = rec["edit_tick"] - 2          # index of the last tick before the edit (index 0 = tick 2)
-                done_before = ei >= 0 and all(rec["marks_at"][ei].count(lab) == 1 for lab in sn["labels"]) and all(
+                done_before = ei >= 0 and not labels_missing(sn, rec["marks_at"][ei]) and all(
                     any(c[2] == name and c[1] == "fin" and t < c[0] <= rec["edit_tick"] for c in rec["cmdlog"])
                     for name in sn["cmds"])
                 if done_before:
@@ -840,6 +1119,8 @@ def check_case(case: dict, res: Result):
                 viol.append((None, f"injected at tick {t} ({sn['kind']}), edit result {rec['edit_result']!r}: injected code "
                              f"incomplete without an accepted edit: missing {missing} {cmd_problems}", sub))
         res.count("interp_ticks_counted", rec["iticks_at"][-1] if rec["iticks_at"] else 0)
+        if gen and key is not None:
+            key = key + (tuple(sn["feat"]), sn["depth"])
         res.case(key, sample={"method": text, "inject_tick": t, "snippet": sn["code"], "edit_delay": d,
                               "state_at_injection": rec["inject_state"], "marks": list(final_marks)[:14],
                               "edit_result": rec["edit_result"]})
